@@ -179,6 +179,19 @@ struct Runner {
     res.add((std::string("op.") + inf.name).c_str(), 1);
     res.add("steps", 1);
     if (o.status == 9) { res.add("n.not_applicable", 1); return true; }
+    if (o.flags & 8) {
+      res.fail("held_result_changed", cls("held_result_changed", vt, s.op.op),
+               std::string("a result of ") + vt->name + " bound to a const reference (rotation(), transform(), inverse(), log(), adj(), hat(), exp(), rjac(), ...) "
+               "changed while other objects of the same type were used: the call depends on later calls", idx);
+      return false;
+    }
+    if (o.flags & 4) {
+      res.fail("assignment_postcondition", cls("assignment_postcondition", vt, s.op.op),
+               std::string(inf.name) + " in " + vt->name + " (storage kinds " + std::to_string((int)s.op.ka) + "," + std::to_string((int)s.op.kb) +
+               ") did not leave the source's coefficients in the destination's own storage", idx);
+      return false;
+    }
+    if (s.op.op == OP_HOLD || s.op.op == OP_T_HOLD) res.add("n.held_result_checks", 1);
 
     if (is_probe) {
       out.digests.push_back(std::make_pair(probe_key(s), o.digest()));
@@ -349,6 +362,7 @@ struct Gen {
     if (op == OP_M_SUBVIEW_WRITE) s.op.c = (uint8_t)rng.below(3);
     if (op == OP_M_COEFFWRITE || op == OP_TM_COEFFWRITE) s.op.variant = (uint8_t)rng.below(3);
     if (op == OP_M_MOVE_ASSIGN && rng.chance(0.5)) s.op.variant |= V_ALT;
+    if (op == OP_M_MOVE_ASSIGN || op == OP_TM_MOVE_ASSIGN) s.op.c = (uint8_t)rng.below(12);
     s.op.ka = (uint8_t)rng.below(3);
     s.op.kb = (uint8_t)rng.below(3);
     if (inf.cls == C_MUT_E || inf.cls == C_MUT_T) s.op.ka = (uint8_t)rng.below(2);
